@@ -1252,3 +1252,84 @@ func NotifyThenClose(res *fw.Result, seed int64) error {
 	}
 	return nil
 }
+
+// NoErrorResultOnce: a proxy function without an error result (func(ctx, int) int) cannot report a lost connection —
+// which is no licence to send its request again: in flight at a loss followed by a redial, it is executed once.
+// The same for a notify-tagged function whose server method returns a channel: the method runs once and nothing
+// about it ever appears on the wire (no response object, no channel frames).
+func NoErrorResultOnce(res *fw.Result, seed int64) error {
+	e, err := scen.NewEnv(seed+61, 0)
+	if err != nil {
+		return err
+	}
+	defer e.Close()
+	ctx, cancel := context.WithCancel(context.Background())
+	defer cancel()
+	var cl struct {
+		Block func(context.Context, int) int
+		Add   func(int, int) (int, error)
+		Sub   func(context.Context, int, int) `notify:"true"`
+	}
+	closer, err := jsonrpc.NewMergeClient(ctx, e.WSURL(), "SH", []interface{}{&cl}, nil,
+		jsonrpc.WithPingInterval(0), jsonrpc.WithTimeout(0), jsonrpc.WithReconnectBackoff(3*time.Millisecond, 12*time.Millisecond))
+	if err != nil {
+		return err
+	}
+	defer scenClose(res, closer, "no-error-result")
+	// ---- a notification for a channel-returning method: silent on the wire
+	tokN := nextToks(5)
+	before := len(e.PX.Frames())
+	cl.Sub(ctx, tokN, 3)
+	if v, err := cl.Add(1, 1); err != nil || v != 2 {
+		return fmt.Errorf("no-error-result: control call failed: %v %v", v, err)
+	}
+	time.Sleep(100 * time.Millisecond)
+	for _, f := range e.PX.Frames()[before:] {
+		if f.Dir != "s2c" || (f.Opcode != 1 && f.Opcode != 2) {
+			continue
+		}
+		if strings.Contains(f.Text, `"id":null`) || strings.Contains(f.Text, "xrpc.ch.") {
+			res.Add(fw.Finding{Kind: "monitor", Signature: "a notification yields frames on the wire", Detail: "a notify-tagged call of a channel-returning method made the server send: " + f.Text, Case: map[string]interface{}{"scenario": "notify-channel-method"}})
+			break
+		}
+	}
+	if n := e.H.C.Execs(tokN); n != 1 {
+		res.Add(fw.Finding{Kind: "monitor", Signature: "notification for a channel-returning method not executed once", Detail: fmt.Sprintf("executed %d times", n)})
+	}
+	// ---- the value-only function in flight at a loss
+	sig := "function without an error result in flight at a loss"
+	tok := nextToks(5)
+	ch := make(chan int, 1)
+	go func() { ch <- cl.Block(ctx, tok) }()
+	for w := 0; w < 3000 && e.H.C.Entered(tok) == 0; w++ {
+		time.Sleep(time.Millisecond)
+	}
+	e.PX.Cut(0, "rst")
+	healed := false
+	for w := 0; w < 400 && !healed; w++ {
+		done := make(chan bool, 1)
+		go func() { v, err := cl.Add(20, 22); done <- err == nil && v == 42 }()
+		select {
+		case healed = <-done:
+		case <-time.After(time.Second):
+		}
+		if !healed {
+			time.Sleep(5 * time.Millisecond)
+		}
+	}
+	time.Sleep(250 * time.Millisecond) // a re-sent request (method retry backoff: 100 ms) would have been executed by now
+	c := map[string]interface{}{"scenario": "no-error-result"}
+	if n := e.H.C.Execs(tok); n > 1 {
+		res.Add(fw.Finding{Kind: "monitor", Signature: sig + " executed twice", Detail: fmt.Sprintf("a call through an untagged function without an error result was executed %d times by the server: it was re-sent after the redial", n), Case: c})
+	}
+	e.H.C.Release(tok)
+	e.H.C.ReleaseAgain(tok)
+	select {
+	case <-ch:
+	case <-time.After(3 * time.Second):
+		res.Add(fw.Finding{Kind: "monitor", Signature: sig + " call hangs", Detail: "the call in flight at the loss did not return", Case: c})
+	}
+	res.Count("no-error-result")
+	res.Eval(true, []interface{}{"no-error-result"})
+	return nil
+}
